@@ -281,7 +281,16 @@ def run(ctx):
     from .common import family_walk
     for n in family_walk(ctx, fi):
         if isinstance(n, _ast.Call) and isinstance(n.func, _ast.Name) and n.func.id == 'isinstance' and len(n.args) == 2:
-            tys = n.args[1].elts if isinstance(n.args[1], _ast.Tuple) else [n.args[1]]
+            tnode = n.args[1]
+            if isinstance(tnode, _ast.Name):
+                # a named constant holding the tuple of types (module level, in the function's module first)
+                cands = [m.globals[tnode.id] for m in [fi.module] + list(ctx.prog.modules.values()) if tnode.id in m.globals]
+                if cands:
+                    tnode = cands[0]
+            tys = []
+            for t in (tnode.elts if isinstance(tnode, _ast.Tuple) else [tnode]):
+                # (a tuple spliced into another: (*_PY_SCALARS, np.integer) / _A + _B is not followed further)
+                tys.append(t.value if isinstance(t, _ast.Starred) else t)
             names = {_ast.unparse(t).split('.')[-1] for t in tys}
             if not names or not names <= SCAL:
                 continue
@@ -445,13 +454,15 @@ def run(ctx):
             va = ctx.apply(I, f, r.ret, args)
             vb = ctx.apply(I2, f, r2.ret, args)
             tag = ', '.join(f'{k}={pretty(v)}' for k, v in cfg.items())
-            ctx.formula('FORMULA', f'{f.name}[{tag}]: value of the returned function == reference definition', f, va, vb,
-                        node=f.node, construct=f'return of {f.name} [{tag}]')
+            o_val = ctx.formula('FORMULA', f'{f.name}[{tag}]: value of the returned function == reference definition', f, va, vb,
+                                node=f.node, construct=f'return of {f.name} [{tag}]')
             ea = [e for e in I.events[n1:] if e.kind == 'store' and e.loops and e.data.get('target') == 'name'
                   and any(e.data['name'] in l.get('carried', ()) for l in e.loops)]
             eb = [e for e in I2.events[n2:] if e.kind == 'store' and e.loops and e.data.get('target') == 'name'
                   and any(e.data['name'] in l.get('carried', ()) for l in e.loops)]
-            if len(ea) != len(eb):
+            if len(ea) != len(eb) and o_val.verdict == 'HOLDS':
+                pass    # (the accumulation was rewritten, e.g. as a sum over a generator, and the value is decided equal)
+            elif len(ea) != len(eb):
                 ctx.ob('FORMULA', f'{f.name}[{tag}]: same accumulation steps as the reference', f, False,
                        {'code': [e.text()[:70] for e in ea], 'reference': [e.text()[:70] for e in eb]}, node=f.node,
                        construct=f'loop accumulations of {f.name} [{tag}]')
